@@ -1004,5 +1004,5 @@ def run(res, facts, tier):
     c04_f2x.run_rule(res, facts, tier)
     from . import c08_transcode
     c08_transcode.run_c04_rule(res, facts, tier)
-    from . import c04_stream
-    c04_stream.run_rule(res, facts, tier)
+    from . import c04_pairs
+    c04_pairs.run_rule(res, facts, tier)
